@@ -7,6 +7,7 @@ package idl
 
 import (
 	"fmt"
+	"os"
 	"strings"
 
 	"pgregory.net/rapid"
@@ -44,8 +45,15 @@ type Cfg struct {
 }
 
 func DefaultCfg() *Cfg {
-	return &Cfg{MaxFiles: 3, Scale: 1, Services: true, Scopes: true, Consts: true, Defaults: true, Annots: true, Docs: true,
+	c := &Cfg{MaxFiles: 3, Scale: 1, Services: true, Scopes: true, Consts: true, Defaults: true, Annots: true, Docs: true,
 		Hazards: map[string]bool{}, Excluded: map[string]int{}}
+	// VERIF_HAZARDS=tag,tag enables hazard tags (used to re-examine known findings, never by registered checks)
+	for _, h := range strings.Split(os.Getenv("VERIF_HAZARDS"), ",") {
+		if h != "" {
+			c.Hazards[h] = true
+		}
+	}
+	return c
 }
 
 func (c *Cfg) hz(t *rapid.T, tag string, oneIn int) bool {
@@ -111,7 +119,8 @@ func (c *Cfg) genName(t *rapid.T, n *namer, label string, styles []string) strin
 		case "digit":
 			s = w1 + fmt.Sprint(rapid.IntRange(0, 99).Draw(t, label+".d"))
 		}
-		if c.hz(t, HzUnderscoreEdge, 40) {
+		if rapid.IntRange(0, 39).Draw(t, label+".usedge") == 0 {
+			// leading / trailing / doubled underscores (were a crash in -gen go; fixed)
 			s = rapid.SampledFrom([]string{"_" + s, s + "_", w1 + "__" + w2}).Draw(t, label+".us")
 		}
 		if n.take(s) {
